@@ -116,6 +116,43 @@ static int64_t op_stream_oneshots(void) { unsigned char o[80], k[32], n[24]; mem
     crypto_stream_salsa20_xor_ic(o, o, 80, n, 2, k); crypto_stream_xsalsa20_xor(o, o, 80, n, k); crypto_stream_xsalsa20_xor_ic(o, o, 80, n, 2, k); crypto_stream_chacha20_ietf(o + 8, 64, n, k); return (int64_t) h64(H0, o, 80); }
 static int64_t op_secretstream_rekey(void) { crypto_secretstream_xchacha20poly1305_state s; unsigned char h[24], k[32]; memset(k, 1, 32); memset(h, 2, 24); crypto_secretstream_xchacha20poly1305_init_pull(&s, h, k); crypto_secretstream_xchacha20poly1305_rekey(&s); return (int64_t) h64(H0, &s, sizeof s) + crypto_secretstream_xchacha20poly1305_tag_final() + (int64_t) sodium_base64_encoded_len(10, 1); }
 typedef int64_t (*op_fn)(void);
+/* objects shared by all threads and only ever passed through const parameters: precomputed AES-GCM key schedule, keys, nonces, key pairs.
+ * Prepared once (ops_shared_setup) before any thread uses them; a library that writes to them (lazy completion, scratch use) races. */
+static CRYPTO_ALIGN(16) crypto_aead_aes256gcm_state SH_GCM; static unsigned char SH_K[32], SH_N[24], SH_SK[64], SH_PK[32], SH_BK[32], SH_M[320]; static int sh_ready;
+static void ops_shared_setup(void)
+{
+    unsigned char seed[32], bsk[32], bpk[32];
+    memset(SH_K, 0x21, 32); memset(SH_N, 0x22, 24); memset(seed, 0x23, 32); memset(SH_M, 0x24, sizeof SH_M);
+    crypto_sign_seed_keypair(SH_PK, SH_SK, seed); crypto_box_seed_keypair(bpk, bsk, seed); if (crypto_box_beforenm(SH_BK, bpk, bsk)) memset(SH_BK, 1, 32);
+    if (crypto_aead_aes256gcm_is_available()) crypto_aead_aes256gcm_beforenm(&SH_GCM, SH_K);
+    sh_ready = 1;
+}
+static int64_t op_shared_gcm(void)
+{
+    unsigned char c[320 + 16], o[320]; unsigned long long l; uint64_t h = H0; int r;
+    if (!sh_ready || !crypto_aead_aes256gcm_is_available()) return 0;
+    crypto_aead_aes256gcm_encrypt_afternm(c, &l, SH_M, 300, SH_N, 9, NULL, SH_N, &SH_GCM); h = h64(h, c, 316);
+    r = crypto_aead_aes256gcm_decrypt_afternm(o, &l, NULL, c, 316, SH_N, 9, SH_N, &SH_GCM); h = h64(h, o, 300); h = h64(h, &r, sizeof r);
+    crypto_aead_aes256gcm_encrypt_detached_afternm(c, o, &l, SH_M, 17, NULL, 0, NULL, SH_N, &SH_GCM); h = h64(h, c, 17); h = h64(h, o, 16);
+    return (int64_t) h;
+}
+static int64_t op_shared_keys(void)
+{
+    unsigned char c[120], t[64], q[32]; unsigned long long l; uint64_t h = H0; crypto_generichash_state gs;
+    if (!sh_ready) return 0;
+    crypto_secretbox_easy(c, SH_M, 70, SH_N, SH_K); h = h64(h, c, 86);
+    crypto_box_easy_afternm(c, SH_M, 33, SH_N, SH_BK); h = h64(h, c, 49);
+    crypto_aead_chacha20poly1305_ietf_encrypt(c, &l, SH_M, 65, SH_N, 5, NULL, SH_N, SH_K); h = h64(h, c, 81);
+    crypto_aead_aegis256_encrypt(c, &l, SH_M, 40, SH_N, 3, NULL, SH_M, SH_K); h = h64(h, c, 72);
+    crypto_onetimeauth(t, SH_M, 100, SH_K); h = h64(h, t, 16);
+    crypto_generichash_init(&gs, SH_K, 32, 32); crypto_generichash_update(&gs, SH_M, 200); crypto_generichash_final(&gs, t, 32); h = h64(h, t, 32);
+    crypto_sign_detached(t, NULL, SH_M, 50, SH_SK); h = h64(h, t, 64); { int r = crypto_sign_verify_detached(t, SH_M, 50, SH_PK); h = h64(h, &r, sizeof r); }
+    crypto_scalarmult(q, SH_K, SH_PK); h = h64(h, q, 32);
+    crypto_auth_hmacsha512256(t, SH_M, 130, SH_K); h = h64(h, t, 32);
+    crypto_kdf_derive_from_key(t, 32, 7, "sharedct", SH_K); h = h64(h, t, 32);
+    return (int64_t) h;
+}
+
 static const struct { const char *name; op_fn fn; } OPS[] = {
     { "runtime_flags", op_flags }, { "randombytes_implementation_name", op_rngname }, { "sodium_malloc/free", op_malloc }, { "sodium_mprotect_*", op_mprotect },
     { "crypto_generichash", op_generichash }, { "crypto_onetimeauth", op_onetimeauth }, { "crypto_stream_chacha20", op_chacha }, { "crypto_stream_salsa20", op_salsa },
@@ -136,6 +173,7 @@ static const struct { const char *name; op_fn fn; } OPS[] = {
     { "NaCl secretbox/box/afternm", op_nacl_forms }, { "box detached/afternm forms", op_box_forms }, { "box xchacha20 all forms + seal", op_boxx_forms }, { "ristretto255 scalars", op_ed_scalars2 },
     { "ristretto255 from_string", op_ris_h2c }, { "random points/scalars", op_randoms }, { "crypto_hash/sha256/blake2b salt-personal", op_hash_aliases }, { "hkdf extract multipart", op_hkdf_multi },
     { "kx keypair/server", op_kx2 }, { "argon2i str / str_alg / needs_rehash", op_argon2i_str }, { "scrypt high-level + str", op_scrypt_hl }, { "sign keypair/sk_to_*", op_sign_misc },
-    { "stream one-shots / xor_ic", op_stream_oneshots }, { "secretstream rekey + constants", op_secretstream_rekey } };
+    { "stream one-shots / xor_ic", op_stream_oneshots }, { "secretstream rekey + constants", op_secretstream_rekey },
+    { "shared const aes256gcm_state (afternm, 300 bytes)", op_shared_gcm }, { "shared const keys/nonces/key pairs", op_shared_keys } };
 #define NOPS ((int) (sizeof OPS / sizeof OPS[0]))
 #endif
